@@ -129,9 +129,13 @@ def run_histories(root, tag, seed, n_hist, n_req):
                 argv = ['/usr/bin/gcc', *flags, '-c', 'a.c', '-o', out]
                 extra = [out[:-2] + '.dwo'] if '-gsplit-dwarf' in flags else []
                 extra += ['a.d'] if '-MD' in flags else []
+                stale = rng.random() < 0.5
                 for p_ in [out] + extra:
                     try: os.remove(os.path.join(w, p_))
                     except OSError: pass
+                    # half of the time a (much larger) file from an earlier build sits at every output path: the new output replaces it whole
+                    if stale: open(os.path.join(w, p_), 'wb').write(b'STALE OUTPUT OF AN EARLIER BUILD\n' * 3000)
+                note += ' (stale larger outputs in place)' if stale else ''
                 before = counts(sc.stats() or {}); jobs0 = len(cl.jobs_run())
                 r = sc.compile(argv, w, timeout=300)
                 after = counts(sc.stats() or {}); jobs1 = len(cl.jobs_run())
@@ -141,6 +145,7 @@ def run_histories(root, tag, seed, n_hist, n_req):
                 for p_ in [out] + extra:
                     try: os.remove(os.path.join(w, p_))
                     except OSError: pass
+                    if stale: open(os.path.join(w, p_), 'wb').write(b'STALE OUTPUT OF AN EARLIER BUILD\n' * 3000)     # the direct compile starts from the same state
                 dr = subprocess.run(argv, cwd=w, capture_output=True)
                 want = (dr.returncode,) + tuple(file_state(os.path.join(w, p_)) and file_state(os.path.join(w, p_))[0] for p_ in [out] + extra)
                 dh = after.get('cache_hits', 0) - before.get('cache_hits', 0)
@@ -156,7 +161,7 @@ def run_histories(root, tag, seed, n_hist, n_req):
                         # macro-expanded text; everything else in the object is identical
                         fails.append({'kind': 'dist_debug_line_columns_differ', 'detail': f'-g: the object differs from the direct compile in .debug_line only ({cls})', 'ops': list(trace)})
                     else: fails.append({'kind': 'dist_result_differs_from_local', 'detail': f'{"/".join(what)} differ from the direct compile after [{note}] ({cls}); stderr {r.stderr.decode(errors="replace")[:160]!r}', 'ops': list(trace)})
-                if r.returncode != 0 and any(g is not None for g in got[1:]) and all(w_ is None for w_ in want[1:]):
+                if not stale and r.returncode != 0 and any(g is not None for g in got[1:]) and all(w_ is None for w_ in want[1:]):
                     fails.append({'kind': 'partial_output_after_failed_job', 'detail': f'a failed request left output files behind after [{note}] ({cls})', 'ops': list(trace)})
                 fp = (k, open(os.path.join(w, 'h.h')).read(), tuple(f for f in flags if not f.startswith('-M') and f != 'a.d'), broken, out if '-gsplit-dwarf' in flags else None)
                 if want[0] == 0:
